@@ -187,11 +187,35 @@ theorem momentMatch_refuses_unknown_field {t : List Cell} {fields : List String}
   unfold momentMatch
   rw [if_pos h]
 
--- OPEN momentMatch_other_fields
---   theorem momentMatch_other_fields (h : momentMatch t fields distOk draws = .ok out) (canonical t) :
---     Forall₂ (fun c o => o.values.keys = c.values.keys ∧ ∀ f ∉ fields, o.values.get? f = c.values.get? f) t out
---   The one-field version is `momentField_values` (values = `Dict.set` of one key); the
---   composition over the field list needs `Dict.set` key / lookup lemmas that are not written yet.
---   Checked on every implementation output by `Spec.C17.momentOk`.
+/-- **momentMatch_other_fields.** For EVERY drawn vector: every cell keeps its field names (and
+their order), and every field that is NOT selected reads exactly as before. -/
+theorem momentMatch_other_fields {t out : List Cell} {fields : List String} {distOk : Bool}
+    {draws : Nat → String → List Rat} (h : momentMatch t fields distOk draws = .ok out)
+    (hk : kindsConsistent t = true) (hs : t.Pairwise (fun a b => Cell.le a b)) :
+    List.Forall₂ (fun c o => o.coord = c.coord ∧ o.kind = c.kind ∧ o.values.keys = c.values.keys ∧
+      ∀ f, f ∉ fields → o.values.get? f = c.values.get? f) t out := by
+  unfold momentMatch at h
+  split at h
+  · cases h
+  · split at h
+    · cases h
+    · exact momentLoop_fields h hk hs
+
+/-- **momentMatch_selected_fields.** … and a selected field (names given once) reads
+`_generate_samples(old value, some drawn vector)`: by `generateSamples_spec` an array of the same
+length and shape holding the drawn vector in the old samples' rank order (`reimposeRank_order`,
+`reimposeRank_perm`), a scalar or `None` unchanged. -/
+theorem momentMatch_selected_fields {t out : List Cell} {fields : List String} {distOk : Bool}
+    {draws : Nat → String → List Rat} (h : momentMatch t fields distOk draws = .ok out)
+    (hnd : fields.Nodup)
+    (hk : kindsConsistent t = true) (hs : t.Pairwise (fun a b => Cell.le a b)) :
+    List.Forall₂ (fun c o => ∀ f ∈ fields, ∃ v drawn, c.values.get? f = some v ∧
+      o.values.get? f = some (generateSamples v drawn)) t out := by
+  unfold momentMatch at h
+  split at h
+  · cases h
+  · split at h
+    · cases h
+    · exact momentLoop_selected h hnd hk hs
 
 end Bermuda.Properties.C17
